@@ -330,7 +330,62 @@ def rescan_after_edit(ctx: Ctx, n: int):
     ctx.stat("rescans_after_edit", n)
 
 
+def same_stem_stream(ctx, n):
+    """A module file next to a package directory of the same name (a.py beside a/): both are scanned, whichever the
+    directory listing gives first - every import statement of the file and of every file below the directory is an import of
+    the architecture, every file below the directory a module.  (Documented oracle only: the model's trees have one entry per name.)"""
+    import os
+    import pathlib
+    import shutil
+    from pytestarch import get_evaluable_architecture
+    for it in range(n):
+        rng = ctx.rng
+        names = rng.sample(scan.POOL, 4)
+        tw, inner, other, deep = names
+        d = common.scratch_dir()
+        try:
+            root = d / "proj"
+            (root / tw / deep).mkdir(parents=True)
+            with_init = rng.random() < 0.5
+            if with_init:
+                (root / "__init__.py").write_text("")
+                (root / tw / "__init__.py").write_text("")
+            forms = lambda t0: rng.choice([f"import {t0}\n", f"from {t0.rsplit('.', 1)[0]} import {t0.rsplit('.', 1)[1]}\n"])
+            (root / (other + ".py")).write_text(forms(f"proj.{tw}.{inner}"))
+            (root / (tw + ".py")).write_text(forms(f"proj.{other}") + (forms(f"proj.{tw}.{inner}") if rng.random() < 0.5 else ""))
+            (root / tw / (inner + ".py")).write_text(forms(f"proj.{other}"))
+            (root / tw / deep / (inner + ".py")).write_text(forms(f"proj.{tw}.{inner}"))
+            must_m = {"proj", f"proj.{tw}", f"proj.{other}", f"proj.{tw}.{inner}", f"proj.{tw}.{deep}", f"proj.{tw}.{deep}.{inner}"}
+            must_e = {(f"proj.{other}", f"proj.{tw}.{inner}"), (f"proj.{tw}", f"proj.{other}"), (f"proj.{tw}.{inner}", f"proj.{other}"), (f"proj.{tw}.{deep}.{inner}", f"proj.{tw}.{inner}")}
+            orig = pathlib.Path.iterdir
+            for order in ("as listed", "ascending", "descending"):
+                def listed(self, _orig=orig, _o=order):
+                    items = list(_orig(self))
+                    return iter(items if _o == "as listed" else sorted(items, reverse=_o == "descending"))
+                pathlib.Path.iterdir = listed
+                try:
+                    arch = get_evaluable_architecture(str(root), str(root))
+                    ns, es = rules.observe(arch, [], [])
+                    res = ("OK", set(ns), set(es))
+                except Exception as e:  # noqa: BLE001
+                    res = ("ERR", type(e).__name__ + ": " + str(e)[:200])
+                finally:
+                    pathlib.Path.iterdir = orig
+                ctx.evaluations += 1
+                ctx.stat("file_and_directory_of_one_name")
+                case = dict(tree={"proj/" + tw + ".py": "file", "proj/" + tw + "/": "directory"}, names=names, with_init=with_init, directory_listing=order)
+                if res[0] != "OK":
+                    ctx.violation(dict(case, error=res[1]), f"scan of a project with {tw}.py beside {tw}/ failed: {res[1]}", {"kind": "scan_error"})
+                elif not must_m <= res[1] or not must_e <= res[2]:
+                    ctx.violation(dict(case, modules_missing=sorted(must_m - res[1]), imports_missing=sorted(must_e - res[2])),
+                                  f"{tw}.py beside {tw}/ (directory listing {order}): modules or import statements are lost", {"kind": "same_stem"})
+            ctx.mark_nontrivial(("same_stem", tuple(names)))
+        finally:
+            shutil.rmtree(d, ignore_errors=True)
+
+
 def run(ctx: Ctx):
+    same_stem_stream(ctx, 12 if ctx.quick else 300)
     rescan_after_edit(ctx, 40 if ctx.quick else 1000)
     pos = [p for p in grammar_positions() if p[0] not in ("Interactive",)] + EXTRA_POSITIONS
     singles = [[p] for p in pos]
